@@ -5,8 +5,8 @@
     text (nearest, ties to even on the exact value, unit interval, monotone, format).
 (A) tables of strings (+ float columns) through pandas' DataFrame.to_csv exactly as blob_to_csv calls it, and
     generated taxonomies / result blobs with wild node names through the REAL blob_to_csv: the file text must
-    equal CsvText.csv_file (1550) byte for byte; pandas.read_csv(path, comment='#') -- the call docs/output.md
-    and the notebooks give -- must return the fields whenever the model says the table is well_shaped (1553);
+    equal CsvText.csv_file (1550) byte for byte; pandas.read_csv(path, comment='#') -- the call of the
+    example notebooks (docs/output.md names no reader), here with dtype=str, keep_default_na=False -- must return the fields whenever the model says the table is well_shaped (1553);
     the raw tokenizer output of pandas must equal CsvText.csv_parse (1551) on the written files and on a
     separate stream of arbitrary (malformed) texts.
 (C) files larger than pandas' 262144-byte tokenizer chunk through the real blob_to_csv: a well_shaped table (cell
